@@ -34,9 +34,13 @@ JudgeLiParse(e, o) ==
         IF e.st # r.val THEN Bad("li-value", <<"C02">>, o)
         ELSE IF e.ser # SerLI(r.val) THEN Bad("li-text", <<"C04", "C02">>, o)
         ELSE IF ~StrictCanonicalLI(e.ser) \/ Len(e.ser) > Len(e.in) THEN Bad("li-text-not-canonical", <<"C04">>, o)
+        ELSE IF e.canon.k # "ok" \/ e.canon.text # e.ser THEN Bad("li-canonicalize", <<"C04">>, o)
+        ELSE IF ~e.fromstr_same THEN Bad("li-fromstr-differs", <<"C02">>, o)
         ELSE Good(o)
     ELSE IF ~r.ok /\ e.out.k = "err" THEN
-        IF e.out.err = r.err THEN Good(o) ELSE Bad("li-error-kind", <<"C02">>, o)
+        IF e.out.err # r.err THEN Bad("li-error-kind", <<"C02">>, o)
+        ELSE IF e.canon.k # "err" \/ ~e.fromstr_same THEN Bad("li-canonicalize-or-fromstr-differs", <<"C02", "C04">>, o)
+        ELSE Good(o)
     ELSE IF r.ok THEN Bad("li-rejects-well-formed", <<"C02">>, o)
     ELSE Bad("li-accepts-ill-formed", <<"C02">>, o)
 
@@ -58,8 +62,11 @@ JudgeLocParse(e, o) ==
         ELSE IF r.zone = "other" THEN Good(o)
         ELSE IF ~TextOK(e.st, e.ser) THEN Bad("loc-text", <<"C04", "C05">>, o)
         ELSE IF Len(e.ser) > Len(e.in) THEN Bad("loc-text-longer-than-input", <<"C04">>, o)
+        ELSE IF e.canon.k # "ok" \/ e.canon.text # e.ser THEN Bad("loc-canonicalize", <<"C04">>, o)
+        ELSE IF ~e.fromstr_same THEN Bad("loc-fromstr-differs", <<"C03">>, o)
         ELSE Good(o)
     ELSE IF r.zone = "accept" THEN Bad("loc-rejects-well-formed", <<"C03">>, o)
+    ELSE IF e.canon.k # "err" \/ ~e.fromstr_same THEN Bad("loc-canonicalize-or-fromstr-differs", <<"C03", "C04">>, o)
     ELSE Good(o)
 
 JudgeExtParse(e, o) ==
@@ -127,6 +134,10 @@ JudgeCmp(e, o) ==
     ELSE IF e.a.id # e.b.id /\ e.ord # e.li_ord THEN Bad("locale-order-not-by-id", <<"C12">>, o)
     ELSE IF e.rev # (CASE e.ord = "lt" -> "gt" [] e.ord = "gt" -> "lt" [] OTHER -> "eq") THEN Bad("cmp-antisymmetry", <<"C12">>, o)
     ELSE IF eq /\ ~e.hash_eq THEN Bad("hash-of-equal-values", <<"C12">>, o)
+    ELSE IF e.li_eq # (e.a.id = e.b.id) \/ e.li_eq_str # (e.a.id = e.b.id) THEN Bad("langid-eq-or-eq-str", <<"C12">>, o)
+    ELSE IF e.li_eq /\ ~e.li_hash_eq THEN Bad("hash-of-equal-langids", <<"C12">>, o)
+    ELSE IF e.ext_eq # ([e.a EXCEPT !.id = LIDefault] = [e.b EXCEPT !.id = LIDefault]) \/ (e.ext_ord = "eq") # e.ext_eq
+         THEN Bad("extension-map-eq-or-cmp", <<"C12">>, o)
     ELSE Good(o)
 
 JudgeMatch(e, o) ==
